@@ -339,4 +339,8 @@ def run(c, prog, ctx):
     c.inst("R7.surjection-check", "every confidential asset is checked against the input domain", len(sp) == 1 and sp[0][2] == "some(confidential::Asset::commitment(%s.asset))" % OUTV and "Vec::new()" in sp[0][3], "calls %s" % sp, VF.f.where(), VF.f.path)
     lenchk = [sh(s[1]) for cx, s in VF.flat if s[0] == "ret" and "UtxoInputLenMismatch" in sh(s[1])]
     c.inst("R7.length-check", "spent outputs must match the inputs one to one", len(lenchk) == 1, "returns %s" % lenchk, VF.f.where(), VF.f.path)
+    # the verifier's domain must be positionally the prover's: C05's rule that the spent output's generator and commitment are
+    # pushed for every input (no filter, no de-duplication) is a condition of "the result passes verification" as well
+    from . import c05 as _c05
+    c.borrow(_c05, "C05", prog, ctx, lambda rule, k: rule in ("R2.push-unconditional",), "R7.domain-unfiltered", 1)
     c.floor("R4.rangeproof-params", 3)
